@@ -129,8 +129,42 @@ let run_parse ~tag ~s (v : byte list) (t : byte list) =
   let m = c_parse (parseControlFile { vis = v; tail = t }) in
   emit ~fn:"ParseControlFile" ~tag ~s ~m [ hexf v; hexf t ]
 
+(* CRC-32C (Castagnoli, reflected 0x82F63B78) run backwards: the last four nonce bytes (file offsets 284..287, free bytes of
+   mock_authentication_nonce) are chosen so that the CRC-32C of bytes 0..287 is a WANTED value - 0, 1, 0xFFFFFFFF ... A check
+   that treats a stored CRC of 0 as "not written" is wrong exactly on such images (seeded change C16-14).  The result is
+   verified with the extracted Coq crc32c before use. *)
+let crc_table = Array.init 256 (fun i ->
+    let c = ref i in
+    for _ = 0 to 7 do c := if !c land 1 = 1 then (!c lsr 1) lxor 0x82F63B78 else !c lsr 1 done; !c)
+let crc_reg (bs : int list) = List.fold_left (fun r b -> crc_table.((r lxor b) land 255) lxor (r lsr 8)) 0xFFFFFFFF bs
+let force_crc (c : control) (want : int) : control option =
+  let n = List.map int_of_byte c.c_nonce in
+  if List.length n <> 32 then None else begin
+    let covered = List.map int_of_byte (crc_covered c) in
+    let prefix = List.filteri (fun i _ -> i < List.length covered - 4) covered in
+    let r0 = crc_reg prefix in
+    let v = ref (want lxor 0xFFFFFFFF) in
+    for _ = 0 to 3 do
+      let top = (!v lsr 24) land 255 in
+      let idx = ref 0 in
+      Array.iteri (fun i t -> if (t lsr 24) land 255 = top then idx := i) crc_table;
+      v := (((!v lxor crc_table.(!idx)) lsl 8) lor !idx) land 0xFFFFFFFF
+    done;
+    let patch = !v lxor r0 in
+    let nb = List.mapi (fun i b -> if i >= 28 then byte_of_int ((patch lsr (8 * (i - 28))) land 255) else byte_of_int b) n in
+    let c' = { c with c_nonce = nb } in
+    if ZA.equal (za (crc32c (crc_covered c'))) (ZA.of_int want) then Some c' else None
+  end
+
 (* a control value with its CRC: valid, or corrupted in a stated way *)
 let with_crc r (c : control) : control * string =
+  if rint r 12 = 0 then
+    (let want = pick r [| 0; 0; 0; 1; 0xFFFFFFFF; 0x80000000; 0xFF |] in
+     match force_crc c want with
+     | Some c' -> if rint r 4 = 0 then ({ c' with c_crc = zz (ZA.of_int (want lxor 1)) }, Printf.sprintf "crcforced%x_off" want)
+       else ({ c' with c_crc = zz (ZA.of_int want) }, Printf.sprintf "crcforced%x_ok" want)
+     | None -> ({ c with c_crc = zz (za (crc32c (crc_covered c))) }, "crcok"))
+  else
   let good = za (crc32c (crc_covered c)) in
   match rint r 10 with
   | 0 -> ({ c with c_crc = zz (ZA.logxor good (pow2 (rint r 32))) }, "crcflip")
